@@ -91,7 +91,22 @@ def main():
         base = json.load(open("/root/.vp/BASELINE.json"))
         allowed = set(base.get("always_fail", []))
         extra = sorted(failed - allowed)
-        meta["suite_with_change"] = {"failed_tests": sorted(failed), "beyond_always_fail": extra, "wall_s": round(time.time() - t0, 1)}
+        # timing-sensitive tests fail spuriously when the machine is loaded: re-run each unexpected failure alone, 3 times
+        flaky = []
+        for t in list(extra):
+            pkg, test = t.split("::", 1)
+            top = test.split("/")[0]
+            if any(x.startswith(pkg + "::" + top) and x != t for x in extra if x.count("/") < t.count("/")):
+                pass
+            rel = "./" + pkg[len("github.com/saucelabs/forwarder"):].lstrip("/") if pkg != "github.com/saucelabs/forwarder" else "."
+            passes = 0
+            for _ in range(3):
+                rc1, _o = run(["go", "test", "-vet=off", "-count=1", "-run", "^" + top + "$", rel], wt, timeout=900)
+                passes += rc1 == 0
+            if passes == 3:
+                flaky.append(t)
+        extra = [t for t in extra if t not in flaky]
+        meta["suite_with_change"] = {"failed_tests": sorted(failed), "beyond_always_fail": extra, "failed_only_under_load_passed_3_of_3_alone": flaky, "wall_s": round(time.time() - t0, 1)}
         meta["suite_passes_with_change"] = not extra
         os.makedirs(out, exist_ok=True)
         with open(os.path.join(out, "patch.diff"), "w") as f:
